@@ -56,6 +56,34 @@ impl OpV {
             _ => TextSelectionOperator::SameRange { all, negate },
         }
     }
+    /// the same operator made with the constructor functions and modifiers of the public API
+    pub fn built(&self) -> TextSelectionOperator {
+        use TextSelectionOperator as T;
+        let mut o = match self.kind {
+            0 => T::equals(),
+            1 => T::overlaps(),
+            2 => T::embeds(),
+            3 => T::embedded(),
+            4 => T::before(),
+            5 => T::after(),
+            6 => if self.ws { T::precedes() } else { T::precedes_exact() },
+            7 => if self.ws { T::succeeds() } else { T::succeeds_exact() },
+            8 => T::samebegin(),
+            9 => T::sameend(),
+            10 => T::inset(),
+            _ => T::samerange(),
+        };
+        if let (Some(l), 3..=5) = (self.limit, self.kind) {
+            o = o.with_limit(l);
+        }
+        if self.all {
+            o = o.toggle_all();
+        }
+        if self.negate {
+            o = o.toggle_negate();
+        }
+        o
+    }
     pub fn name(&self) -> String {
         let mut s = format!(
             "{}/all={},neg={}",
@@ -640,6 +668,17 @@ pub fn run(p: &Params, rep: &mut Report) {
     };
     let limits = [None, Some(0), Some(1), Some(3)];
     let ops = all_variants(&limits);
+    // the constructor functions and modifiers give the operator they say they give (the searches and queries are built with them)
+    if p.shard == 0 {
+        for op in &ops {
+            rep.eval();
+            match guard(|| op.built()) {
+                Ok(b) if b == op.to_op() => {}
+                Ok(b) => rep.violation(format!("C13/operator-builder/{}", op.name()), json!({"built_with_constructor_and_modifiers": format!("{:?}", b), "meant": format!("{:?}", op.to_op())})),
+                Err(pn) => rep.violation(format!("C13/operator-builder/panic/{}", pn.class()), json!({"operator": op.name(), "panic": pn.msg})),
+            }
+        }
+    }
     rep.extra.insert("operator_variants".into(), json!(ops.len()));
     let mut units: Vec<(usize, &str)> = Vec::new();
     for (li, l) in layouts.iter().enumerate() {
